@@ -965,7 +965,30 @@ func (g *FuncGen) convert(v Val, from, to types.Type) Val {
 	case v.S == s && v.T != "":
 		return Val{T: v.T, S: s, GT: to, P: v.P}
 	}
-	// string <-> []byte, int->float etc: uninterpreted conversion function (deterministic)
+	// string <-> []byte: the text of a byte slice is an (uninterpreted) function of its contents, offset and
+	// length - so it changes when the bytes change - and []byte(s) is a fresh array whose text is s
+	if isByteSlice(to) && isString(from) && v.T != "" {
+		r := g.newRef("bytes")
+		ln := g.strLen(v.T)
+		sl := fmt.Sprintf("(mk_slice %s %s %s %s)", r, c.intLit64(0, 64), ln, ln)
+		cl := c.elemClass(types.Typ[types.Uint8])
+		data := c.fresh("bytes_of_string", fmt.Sprintf("(Array %s %s)", c.intSort(64), c.intSort(8)))
+		g.heapStore(cl, r, data)
+		c.assert(eq(g.bytesText(g.heapOf(g.cur, cl), sl), v.T))
+		if g.c.mathInts {
+			c.assert(fmt.Sprintf("(<= %s 1099511627776)", ln))
+		} else {
+			c.assert(g.le64(ln, c.intLit64(1<<40, 64)))
+		}
+		return Val{T: sl, S: s, GT: to}
+	}
+	if isString(to) && isByteSlice(from) && v.T != "" {
+		cl := c.elemClass(types.Typ[types.Uint8])
+		t := g.bytesText(g.heapOf(g.cur, cl), v.T)
+		c.assert(eq(g.strLen(t), fmt.Sprintf("(s_len %s)", v.T)))
+		return Val{T: t, S: s, GT: to}
+	}
+	// int->float etc: uninterpreted conversion function (deterministic)
 	if v.T != "" {
 		fn := "conv_" + sortKey(v.S) + "_to_" + sortKey(s)
 		c.decl(fmt.Sprintf("(declare-fun %s (%s) %s)", fn, v.S, s))
@@ -975,6 +998,23 @@ func (g *FuncGen) convert(v Val, from, to types.Type) Val {
 	}
 	g.unsup("convert %s -> %s", from, to)
 	return Val{}
+}
+
+func isByteSlice(t types.Type) bool {
+	sl, ok := types.Unalias(t).Underlying().(*types.Slice)
+	if !ok {
+		return false
+	}
+	b, ok := types.Unalias(sl.Elem()).Underlying().(*types.Basic)
+	return ok && b.Kind() == types.Uint8
+}
+
+// bytesText: the text (Go string) spelled by byte slice sl in byte heap `heap`.
+func (g *FuncGen) bytesText(heap, sl string) string {
+	c := g.c
+	i64 := c.intSort(64)
+	c.decl(fmt.Sprintf("(declare-fun bytes_text ((Array %s %s) %s %s) String)", i64, c.intSort(8), i64, i64))
+	return fmt.Sprintf("(bytes_text (select %s (s_arr %s)) (s_off %s) (s_len %s))", heap, sl, sl, sl)
 }
 
 func (g *FuncGen) typeAssert(x *ssa.TypeAssert) {
